@@ -15,7 +15,7 @@ const inf = math.MaxInt64 / 4
 // intBound returns an interval [lo,hi] for the integer value v at instruction `at`, derived from
 // constants, arithmetic and the dominating facts. ok=false means nothing is known.
 func (w *World) intBound(v ssa.Value, at ssa.Instruction) (lo, hi int64, ok bool) {
-	return w.intBoundD(v, at, 0)
+	return w.intBoundD(v, locOf(at), 0)
 }
 
 func (w *World) intBoundD(v ssa.Value, at ssa.Instruction, d int) (lo, hi int64, ok bool) {
@@ -406,7 +406,7 @@ func satMul(a, b int64) int64 {
 
 // lenBound returns bounds on len(v) for a slice/array/string value at `at`.
 func (w *World) lenBound(v ssa.Value, at ssa.Instruction) (lo, hi int64, ok bool) {
-	return w.lenBoundD(v, at, 0)
+	return w.lenBoundD(v, locOf(at), 0)
 }
 
 func (w *World) lenBoundD(v ssa.Value, at ssa.Instruction, d int) (lo, hi int64, ok bool) {
